@@ -141,7 +141,9 @@ fn one_case(rep: &Report, case: &Case, rng: &mut Rng, n_variants: u64, pairs: &s
         match run_with(case, &setting, &layout) {
             Err(p) => {
                 rep.case(fp_mix(fp, v), true);
-                rep.violation("variant-panic", json!({"case": case.witness(None, Some(&base.rows), &format!("panic under variant config: {p}")), "setting": setting_json(&setting), "variant_layout": json!(layout)}));
+                // key the panic by its source location (file:line), not by the query
+                let loc = p.rsplit(" @ ").next().unwrap_or("").rsplit('/').next().unwrap_or("").to_string();
+                rep.violation(&format!("variant-panic/{loc}"), json!({"case": case.witness(None, Some(&base.rows), &format!("panic under variant config: {p}")), "setting": setting_json(&setting), "variant_layout": json!(layout)}));
             }
             Ok(Err(e)) => {
                 let cls = classify(&e);
